@@ -17,7 +17,14 @@ ORDER = ["Homogeneous", "Affine", "Similarity", "Rotation", "Translation", "Unif
          "AlignmentUniformScale"]
 GEN_REL = os.path.join("MenpoModel", "Generated", "C03Classes.lean")
 GEN_TARGETS = ["MenpoModel.Generated.C03Classes", "MenpoModel.GenProps.C03"]
-N_OBLIGATIONS = 3
+N_OBLIGATIONS = 4
+
+# method table (columns = `Meth.all` of Core/C03Compose.lean, rows = the classes composition is exercised on)
+METHODS = ["compose_before", "compose_after", "compose_before_inplace", "compose_after_inplace",
+           "_compose_before", "_compose_after", "_compose_before_inplace", "_compose_after_inplace",
+           "compose_after_from_vector_inplace", "from_vector", "_from_vector_inplace",
+           "_apply", "copy", "decompose", "as_non_alignment", "_set_h_matrix"]
+OTHER_CLASSES = ["TransformChain", "WithDims", "ThinPlateSplines", "PiecewiseAffine"]
 
 
 def family_classes():
@@ -111,6 +118,22 @@ def extract(d):
     return rows
 
 
+def method_table():
+    """[(row name in Lean, [supplier class name or None per METHODS])]: the class of the MRO whose __dict__ defines
+    the method, exactly as attribute lookup resolves it"""
+    import menpo.transform as mt
+    fam = family_classes()
+    rows = []
+    names = [n for n in ORDER if n in fam] + sorted(n for n in fam if n not in ORDER)
+    for n in names + OTHER_CLASSES:
+        c = fam[n] if n in fam else getattr(mt, n)
+        sup = []
+        for m in METHODS:
+            sup.append(next((k.__name__ for k in c.__mro__ if m in k.__dict__), None))
+        rows.append((".fam .%s" % n if n in fam else ".%s" % n, sup))
+    return rows
+
+
 def _lean_list(xs):
     return "[" + ", ".join(xs) + "]"
 
@@ -123,6 +146,9 @@ def render(rows2, rows3):
                 r["cls"], _lean_list(r["ancestors"]), "true" if r["is_alignment"] else "false",
                 _lean_list(r["inplace"]), _lean_list(r["composes"]), r["strip"]))
         return "[\n" + ",\n".join(out) + "]"
+    def mtbl(rows):
+        return "[\n" + ",\n".join("  (%s, [%s])" % (k, ", ".join("none" if x is None else "some .%s" % x for x in sup))
+                                  for k, sup in rows) + "]"
     return ("/- GENERATED by harness/extract_c03.py from the live classes of menpo.transform — do not edit.\n"
             "   Rewritten (only when its content changes) by every `./check C03`. -/\n"
             "import MenpoModel.Core.C03Compose\n\n"
@@ -134,7 +160,9 @@ def render(rows2, rows3):
             "def classTable : ClassTable := %s\n\n"
             "/-- read from populated 3-D instances -/\n"
             "def classTable3 : ClassTable := %s\n\n"
-            "end MenpoModel.Generated.C03\n" % (len(rows2), tbl(rows2), tbl(rows3)))
+            "/-- per class, the supplier of each method of `Meth.all` (the class of the MRO that defines it) -/\n"
+            "def methodTable : MethodTable := %s\n\n"
+            "end MenpoModel.Generated.C03\n" % (len(rows2), tbl(rows2), tbl(rows3), mtbl(method_table())))
 
 
 def wire(rows):
